@@ -5,6 +5,9 @@ import (
 	"context"
 	"fmt"
 	"strings"
+	"sync"
+
+	"git.defalsify.org/vise.git/vm"
 
 	"visim/app"
 	"visim/core"
@@ -26,7 +29,7 @@ func init() {
 		},
 		Real:       append(append([]string{}, realAll...), "db/fs (compiled against the simulated os)", "db/postgres"),
 		Stub:       append(append([]string{}, stubAll...), "OS filesystem (simfs)", "Postgres server (pgfake)"),
-		FaultKinds: []string{"client_garbage", "flush_without_exec", "restart"},
+		FaultKinds: []string{"client_garbage", "caller_buffer_reuse", "flush_without_exec", "restart"},
 	})
 }
 
@@ -38,9 +41,22 @@ var refusalCandidates = [][]byte{
 	[]byte(" " + strings.Repeat("x", 250)), []byte(strings.Repeat("*", 300)), []byte("\n" + strings.Repeat("1", 220)), []byte("-" + strings.Repeat("0", 254)),
 }
 
+// the application has registered one input format of its own (engine.AddValidInput; the registry is
+// process-wide in the library, so it is filled once, before any run of this check validates an input)
+var c17Format sync.Once
+
+// inputs only that format accepts, and refused inputs of the same lengths
+var c17Custom = [][]byte{[]byte("*123#"), []byte("*1#"), []byte("*00000#"), []byte("*77#")}
+var c17SameLength = [][]byte{[]byte("#0000"), []byte("#1*"), []byte("#123456"), []byte("*77*"), []byte("*12 #"), []byte("*#")}
+
 func runC17(c *core.Ctx) *core.Outcome {
 	t := c.T
 	o := core.NewOutcome()
+	c17Format.Do(func() {
+		if err := vm.RegisterInputValidator(0, `^\*[0-9]+#$`); err != nil {
+			panic("C17 harness: cannot register the input format: " + err.Error())
+		}
+	})
 	cfg := genCfg(t)
 	cfg.Backend = t.Weighted(4, 2, 1, 2)
 	cfg.FinishAlways = t.Chance(1, 2)
@@ -66,6 +82,19 @@ func runC17(c *core.Ctx) *core.Outcome {
 	B := wb.NewSession("s", persisted)
 	refusedAtPos := 0
 	afterRefusal := 0
+	// a gateway reads every request of a connection into the same buffer
+	reuse := t.Chance(1, 2)
+	bufA, bufB := make([]byte, 0, 16), make([]byte, 0, 16)
+	via := func(buf *[]byte, in []byte) []byte {
+		if !reuse || in == nil {
+			return in
+		}
+		*buf = append((*buf)[:0], in...)
+		return *buf
+	}
+	if reuse {
+		o.Faults["caller_buffer_reuse"]++
+	}
 	fail := func(class string, step int, format string, args ...interface{}) *core.Outcome {
 		o.Fail(class, step, nil, format, args...)
 		return finishC17(o, c, wa, wb)
@@ -79,11 +108,17 @@ func runC17(c *core.Ctx) *core.Outcome {
 				cur = p[len(p)-1]
 			}
 			in = genInput(t, a, cur, 0)
+			if t.Chance(1, 6) {
+				in = c17Custom[t.Int(len(c17Custom))] // accepted through the application's own format only
+				o.Probes["input_in_the_applications_own_format"]++
+			}
 		}
 		insert := t.Weighted(5, 3, 1) // nothing, refusal candidate, flush-without-exec
 		var cand []byte
 		if insert == 1 {
-			if t.Chance(4, 5) {
+			if t.Chance(1, 5) {
+				cand = c17SameLength[t.Int(len(c17SameLength))]
+			} else if t.Chance(4, 5) {
 				cand = refusalCandidates[t.Int(len(refusalCandidates))]
 			} else {
 				n := t.Range(1, 8)
@@ -103,7 +138,7 @@ func runC17(c *core.Ctx) *core.Outcome {
 			before := snapKey(B.St, B.Ca)
 			storedBefore := storedState(wb, B)
 			nCalls := len(B.CallLog)
-			st := B.Request(cand, freshIns)
+			st := B.Request(via(&bufB, cand), freshIns)
 			o.Counts["requests"]++
 			if st.Panic != "" {
 				o.Probes["foreign_panic"]++
@@ -159,8 +194,8 @@ func runC17(c *core.Ctx) *core.Outcome {
 		}
 
 		// --- the regular request in both twins
-		sa := A.Request(in, fresh)
-		sb := B.Request(in, fresh || (insert == 2 && persisted && !cfg.FinishLate))
+		sa := A.Request(via(&bufA, in), fresh)
+		sb := B.Request(via(&bufB, in), fresh || (insert == 2 && persisted && !cfg.FinishLate))
 		o.Counts["requests"] += 2
 		if fresh {
 			o.Faults["restart"]++
